@@ -4,6 +4,7 @@ requested date lands at or before an observation of a row it is created on, and 
 strictly beyond the observations of its row.
 -/
 import Bermuda.Lemmas.ExtendTotalInc
+import Bermuda.Lemmas.ExtendNodup
 namespace Bermuda.Extend
 open Bermuda
 
@@ -206,5 +207,138 @@ theorem makeRightDiagonal_error_inc_hist {t : List Cell} {dates : List Date} (hC
   unfold makeRightDiagonal
   simp only [hinc, if_true, hcum, hnew, bind, Except.bind]
   exact herr
+
+/-! ### a date requested twice: `make_right_diagonal` on cumulative input returns one coordinate twice -/
+
+theorem dup_sublist_flatMap {α β : Type} (f : α → List β) {l : List α} {a : α} (ha : a ∈ l) {b : β}
+    (h : List.Sublist [b, b] (f a)) : List.Sublist [b, b] (l.flatMap f) := by
+  rw [List.flatMap_def]
+  exact h.trans (List.sublist_flatten_of_mem (List.mem_map_of_mem ha))
+
+/-- default flag, cumulative (or plain `Cell`) input: a date `d` listed twice, not before the period start of an observed
+cell `x` and after every observation of `x`'s slice, yields the empty cell of some row twice — the result has a repeated
+element (the library warns `DuplicateCellWarning` and returns) -/
+theorem makeRightDiagonal_dup_cum {t out : List Cell} {dates : List Date}
+    (hinc : Triangle.isIncremental t = false) (h : makeRightDiagonal t dates false = .ok out)
+    {x : Cell} {d : Date} (hx : x ∈ t) (hdup : List.Sublist [d, d] dates) (hle : x.ps ≤ d)
+    (hafter : ∀ o ∈ t, o.md = x.md → o.ev < d) : ¬ out.Nodup := by
+  obtain ⟨new, hnew, hfin⟩ := makeRightDiagonal_fin hinc h
+  have hperm := finishRight_cum hinc hfin
+  intro hnd
+  have hndn : new.Nodup := hperm.nodup_iff.mp hnd
+  obtain ⟨p, hp, hpm, hxp⟩ := slices_cover hx
+  obtain ⟨edge, hedge⟩ := rightDiagonalCells_edges hnew p hp
+  obtain ⟨e, he, _, hep⟩ := rightEdge_cover hedge hxp
+  have hps : e.ps = x.ps := by
+    simp only [cellPeriod, Prod.mk.injEq] at hep; exact hep.1
+  have hd1 : List.Sublist [d, d] (diagDatesOf dates false p.2) := by
+    unfold diagDatesOf
+    simp only [Bool.false_eq_true, if_false]
+    cases hm : maxEval p.2 with
+    | none => exact hdup
+    | some m =>
+      obtain ⟨o, ho, hoe⟩ := maxEval_mem hm
+      obtain ⟨hot, hom⟩ := (slices_spec hp o).mp ho
+      have hmd : m < d := by rw [← hoe]; exact hafter o hot (hom.trans hpm)
+      have := hdup.filter (fun d' => decide (m < d'))
+      simpa [hmd] using this
+  have hd2 : List.Sublist [d, d] ((diagDatesOf dates false p.2).filter fun d' => e.ps ≤ d') := by
+    have := hd1.filter (fun d' => decide (e.ps ≤ d'))
+    have hle' : e.ps ≤ d := by rw [hps]; exact hle
+    simpa [hle'] using this
+  have hd3 : List.Sublist [(e, d), (e, d)] (diagPairs (diagDatesOf dates false p.2) edge) := by
+    unfold diagPairs
+    exact dup_sublist_flatMap _ he (by simpa using hd2.map (fun d' => (e, d')))
+  have hd4 : List.Sublist [emptyCell e d, emptyCell e d] (diagBlock dates false p) := by
+    unfold diagBlock
+    rw [hedge]
+    simpa using hd3.map (fun q : Cell × Date => emptyCell q.1 q.2)
+  have hd5 : List.Sublist [emptyCell e d, emptyCell e d] new := by
+    rw [rightDiagonalCells_eq hnew]
+    exact dup_sublist_flatMap _ hp hd4
+  have := hndn.sublist hd5
+  simp at this
+
+/-! ### two requested day lags floored onto one date: `make_right_triangle` on cumulative input returns it twice -/
+
+/-- explicit block of one slice of the right triangle, day unit -/
+def triBlockDay (lags : Option (List Rat)) (p : Metadata × List Cell) : List Cell :=
+  match Triangle.rightEdge p.2 with
+  | .ok edge => (rightPairs (lagListOf lags .day p.2) .day edge).map fun q =>
+      emptyCell q.2 (q.2.pe.addDays q.1.floor)
+  | .error _ => []
+
+theorem rightTriangleSlice_eq_day {lags : Option (List Rat)} {p : Metadata × List Cell} {ys : List Cell}
+    (h : rightTriangleSlice lags .day p.2 = .ok ys) : ys = triBlockDay lags p := by
+  unfold rightTriangleSlice at h
+  simp only [bind, Except.bind] at h
+  split at h
+  · cases h
+  · rename_i edge hedge
+    split at h
+    · simp [throw, throwThe, MonadExceptOf.throw] at h
+    · unfold triBlockDay
+      rw [hedge]
+      apply mapM_ok_eq_map _ _ h
+      intro x _ y hy
+      obtain ⟨ev, hev, rfl, _⟩ := rightCellOf_ok.mp hy
+      have : x.2.pe.addDays x.1.floor = ev := Except.ok.inj hev
+      rw [this]
+
+theorem rightTriangleCells_eq_day {cum new : List Cell} {lags : Option (List Rat)}
+    (h : rightTriangleCells cum lags (some .day) = .ok new) :
+    new = (Triangle.slices cum).flatMap (triBlockDay lags) := by
+  unfold rightTriangleCells at h
+  simp only [bind, Except.bind, pure, Except.pure] at h
+  split at h
+  · cases h
+  · rename_i parts hparts
+    cases h
+    rw [mapM_ok_eq_map _ _ hparts (fun p _ ys hys => rightTriangleSlice_eq_day hys)]
+    simp [List.flatMap_def]
+
+theorem pair_sublist_flatMap {α β : Type} (f : α → List β) {l : List α} {a1 a2 : α}
+    (h : List.Sublist [a1, a2] l) {b1 b2 : β} (h1 : b1 ∈ f a1) (h2 : b2 ∈ f a2) :
+    List.Sublist [b1, b2] (l.flatMap f) := by
+  have hs : List.Sublist ([a1, a2].flatMap f) (l.flatMap f) := h.flatMap f
+  refine List.Sublist.trans ?_ hs
+  simp only [List.flatMap_cons, List.flatMap_nil, List.append_nil]
+  exact List.Sublist.append (List.singleton_sublist.mpr h1) (List.singleton_sublist.mpr h2)
+
+/-- cumulative input, day unit: two requested lags (in this order in the list), both beyond every lag of the row of `x`,
+floored onto the same date — the result has a repeated cell -/
+theorem makeRightTriangle_dup_cum_day {t out : List Cell} {ls : List Rat}
+    (hinc : Triangle.isIncremental t = false) (h : makeRightTriangleU t (some ls) (some .day) = .ok out)
+    {x : Cell} {l1 l2 : Rat} (hx : x ∈ t) (hdup : List.Sublist [l1, l2] ls)
+    (hgt : ∀ o ∈ t, rowKey o = rowKey x → l1 > o.devLag .day ∧ l2 > o.devLag .day)
+    (hsame : x.pe.addDays l1.floor = x.pe.addDays l2.floor) : ¬ out.Nodup := by
+  obtain ⟨new, hnew, hfin⟩ := makeRightTriangle_fin hinc h
+  have hperm := finishRight_cum hinc hfin
+  intro hnd
+  have hndn : new.Nodup := hperm.nodup_iff.mp hnd
+  obtain ⟨p, hp, hpm, hxp⟩ := slices_cover hx
+  obtain ⟨edge, hedge⟩ := rightTriangleCells_edges hnew p hp
+  obtain ⟨e, he, hem, hep⟩ := rightEdge_cover hedge hxp
+  have hep' : e.ps = x.ps ∧ e.pe = x.pe := by
+    simp only [cellPeriod, Prod.mk.injEq] at hep; exact hep
+  have het : e ∈ t := mem_of_mem_slices hp (rightEdge_latest hedge he).1
+  have hex : rowKey e = rowKey x := by rw [rowKey_eq_iff]; exact ⟨hem, hep'.1, hep'.2⟩
+  obtain ⟨g1, g2⟩ := hgt e het hex
+  have hpairs : List.Sublist [(l1, e), (l2, e)] (rightPairs (lagListOf (some ls) .day p.2) .day edge) := by
+    unfold rightPairs
+    refine pair_sublist_flatMap _ hdup ?_ ?_
+    · exact List.mem_map.mpr ⟨e, List.mem_filter.mpr ⟨he, by simpa using g1⟩, rfl⟩
+    · exact List.mem_map.mpr ⟨e, List.mem_filter.mpr ⟨he, by simpa using g2⟩, rfl⟩
+  have hblock : List.Sublist [emptyCell e (e.pe.addDays l1.floor), emptyCell e (e.pe.addDays l2.floor)]
+      (triBlockDay (some ls) p) := by
+    unfold triBlockDay
+    rw [hedge]
+    simpa using hpairs.map (fun q : Rat × Cell => emptyCell q.2 (q.2.pe.addDays q.1.floor))
+  have hnew' : List.Sublist [emptyCell e (e.pe.addDays l1.floor), emptyCell e (e.pe.addDays l2.floor)] new := by
+    rw [rightTriangleCells_eq_day hnew, List.flatMap_def]
+    exact hblock.trans (List.sublist_flatten_of_mem (List.mem_map_of_mem hp))
+  have := hndn.sublist hnew'
+  rw [hep'.2, hsame] at this
+  simp at this
 
 end Bermuda.Extend
